@@ -166,17 +166,36 @@ def eval_pred(leaves, env):
     return vals.pop() if len(vals) == 1 else None
 
 
+CHAR_SEARCH = set()      # newline searches that return a character index
+
+
+def _chars_to_int(t):
+    if isinstance(t, mir.E):
+        if t[0] == "const" and isinstance(t[2], str) and len(t[2]) == 1:
+            return mk("const", "u32", ord(t[2]))
+        return mir.E([t[0]] + [_chars_to_int(a) if isinstance(a, tuple) else a for a in t[1:]])
+    if isinstance(t, tuple):
+        return tuple(_chars_to_int(a) if isinstance(a, tuple) else a for a in t)
+    return t
+
+
 def is_newline_search(S, t, view_of):
     """t is Option-valued 'first newline' search over view_of(source-view term) -> the view term, else None."""
     t = strip(t)
     if is_call(t, "position") and len(t[2]) == 2:
         it, clo = strip(t[2][0]), t[2][1]
-        if is_call(it, "bytes") and len(it[2]) == 1:
+        if is_call(it, "bytes", "chars") and len(it[2]) == 1:
             cf = closure_fn(S, clo)
             if cf is None:
                 return None
             item = mk("param", 2)
-            ok = all(eval_pred(cf, {item: v}) is (v == 10) for v in (9, 10, 11, 13, 32))
+            if last(it[1]) == "chars":
+                cf = [([(_chars_to_int(a), v) for a, v in asm], _chars_to_int(r_)) for asm, r_ in cf]
+                ok = all(eval_pred(cf, {item: v}) is (v == 10) for v in (9, 10, 11, 13, 32, 97))
+                if ok:
+                    CHAR_SEARCH.add(t)
+            else:
+                ok = all(eval_pred(cf, {item: v}) is (v == 10) for v in (9, 10, 11, 13, 32))
             return strip(it[2][0]) if ok else None
     if is_call(t, "find") and "str" in t[1] and len(t[2]) == 2:
         pat = strip(t[2][1])
@@ -243,7 +262,10 @@ def analyse_iter(cx, S, chk, rt, next_path, new_term, notes):
         env = {CUR: cur}
         for x in len_terms:
             env[x] = ln
-        sel, _unk = semspec.select_leaves(sm.returns, env)
+        sel, unk = semspec.select_leaves(sm.returns, env)
+        if any(not (a[0] == "discr" and is_newline_search(S, a[1], None) is not None) for a in unk):
+            notes.append("iter: next() branches on something besides cursor / len / the newline search")
+            return M
         kinds = {option_ret(l.ret)[0] for l in sel}
         outcome[rel] = kinds
     if outcome["<"] != {"Some"}:
@@ -311,6 +333,11 @@ def analyse_iter(cx, S, chk, rt, next_path, new_term, notes):
         if not want_view:
             notes.append("iter: the newline search does not run over source[cursor..]")
             continue
+        if srch[1] == 1 and strip(srch[0]) in CHAR_SEARCH:
+            chk.violation(R + ".iter", "char-index-as-offset", "the newline is searched with chars().position(..): the result is a character index, and it is used as a "
+                          "byte offset for the record's end and text: a line with a multi-byte character before its newline is cut short (text \"é\\nb\": slicing "
+                          "inside the character panics; later lines are numbered one too high)")
+            return M
         if srch[1] == 1:
             k = payload(srch[0])
             line_end = lin(mk("binop", "Add", k, CUR))
@@ -608,6 +635,9 @@ def _decide(cx, chk, rt, S, sm, notes, undecided):
             if i["kind"] != "fallback":
                 continue
             consts = [p for p in i["flat"] if p[0] == "ph" and p[1] in ("display", "debug") and lin(p[2]) is not None and set(lin(p[2])) <= {1}]
+            if not consts:
+                undecided["line"] = True
+                notes.append("line: the not-found fallback is reachable (iterator stops at cursor == len) and its line number is not modelled")
             if consts:
                 viol(R + ".line", "fallback-constant-line",
                      "the line iterator stops at cursor == len, so no record is found for the empty text and for the position at the end of a text that "
@@ -682,14 +712,14 @@ def _decide(cx, chk, rt, S, sm, notes, undecided):
             viol(R + ".show", "no-line-number", "no formatted value derives from the chosen record's line counter")
             bad = True
         for p in ln_args:
-            if lin(p[2]) != lplus({cn(i["LN"]): 1}, 1):
+            if lin(through(p[2], DECOR)) != lplus({cn(i["LN"]): 1}, 1):
                 viol(R + ".show", "line-number", "the line number shown is %s; the record's counter is 0-based, the reported line is counter + 1" % mir.show(p[2])[:100])
                 bad = True
-        nums = [p for p in phs if p[1] in ("display", "debug") and p not in ln_args and lin(p[2]) is not None and set(lin(p[2])) & set(C)]
+        nums = [p for p in phs if p[1] in ("display", "debug") and p not in ln_args and lin(through(p[2], DECOR)) is not None and set(lin(through(p[2], DECOR))) & set(C)]
         if stt == "notfound":
             nums = [flat[k] for k in (col_idx or [])]
         for p in nums:
-            if lin(p[2]) != lplus(C, 1):
+            if lin(through(p[2], DECOR)) != lplus(C, 1):
                 viol(R + ".show", "column-number", "the column shown is %s; the reported column is (characters before the position) + 1" % mir.show(p[2])[:100])
                 bad = True
         if not nums:
@@ -704,9 +734,28 @@ def _decide(cx, chk, rt, S, sm, notes, undecided):
             ca = carets[0]
             o = ca[3]
             fl = o["flags"]
+            # a styled value turned into a String before it is padded: the width counts the escape sequences
+            chain = []
+            t_ = strip(ca[2])
+            while is_call(t_, *DECOR) and t_[2]:
+                chain.append(last(t_[1]))
+                t_ = strip(t_[2][0])
+            STYLES = ("bold", "red", "white", "blue", "green", "yellow")
+            for n_, c_ in enumerate(chain):
+                if c_ in ("to_string", "to_owned", "into", "from") and any(x in STYLES for x in chain[n_ + 1:]) and (ca[4] is not None or o["width"] is not None):
+                    viol(R + ".show", "caret-escape-width", "the caret is styled (%s) and converted to a String *before* it is padded to the column: with colours on "
+                         "the String contains the escape sequences and the width counts them - the caret stays at column 1 for every column up to the length of "
+                         "the escapes" % "/".join(x for x in chain if x in STYLES))
+                    bad = True
+                    break
             if ca[4] is None:
-                viol(R + ".show", "caret-width", "the caret is printed %s: it does not follow the column" % ("without a width" if o["width"] is None else "with the constant width %d" % o["width"]))
-                bad = True
+                k_ = flat.index(ca)
+                if k_ > 0 and flat[k_ - 1][0] == "ph" and through(flat[k_ - 1][2], DECOR)[0] != "const":
+                    und = True      # padding may come from the placeholder in front of the caret
+                    notes.append("show: the caret has no width of its own")
+                else:
+                    viol(R + ".show", "caret-width", "the caret is printed %s: it does not follow the column" % ("without a width" if o["width"] is None else "with the constant width %d" % o["width"]))
+                    bad = True
             else:
                 if lin(ca[4]) is None:
                     und = True
@@ -723,12 +772,15 @@ def _decide(cx, chk, rt, S, sm, notes, undecided):
                     viol(R + ".show", "caret-fill", "the caret's field is filled with %r instead of spaces" % chr(fill))
                     bad = True
             idx_c = flat.index(ca)
-            lines = [p for p in phs if p is not ca and through(p[2], DECOR + ("trim_end", "trim_end_matches")) == strip(i["TXT"])]
-            if not lines:
+            TRIMS = ("trim_end", "trim_end_matches", "trim", "trim_start", "trim_start_matches", "trim_matches")
+            cand = [p for p in phs if p is not ca and p not in ln_args and p not in nums and mentions(p[2], strip(i["TXT"]))]
+            lines = [p for p in cand if through(p[2], DECOR + TRIMS) == strip(i["TXT"])]
+            if not cand:
                 viol(R + ".show", "line-text", "the text of the chosen record is not shown")
                 bad = True
-            elif len(lines) > 1:
+            elif len(lines) != 1:
                 und = True
+                notes.append("show: the echoed line goes through functions that are not modelled")
             else:
                 li = lines[0]
                 if any(is_call(x, "trim_start", "trim", "trim_start_matches", "trim_matches") for x in walk(li[2])):
@@ -750,11 +802,16 @@ def _decide(cx, chk, rt, S, sm, notes, undecided):
                             out.append(("ph", p[1], strip(p[2])))
                         j -= 1
                     return [x for x in out[::-1] if x != ("lit", "")]
-                if prefix(idx_l) != prefix(idx_c):
-                    viol(R + ".show", "caret-prefix", "the line and the caret line do not start with the same prefix: the caret is shifted against the text")
-                    bad = True
+                pl, pc = prefix(idx_l), prefix(idx_c)
+                if pl != pc:
+                    if not pl or not pc:
+                        viol(R + ".show", "caret-prefix", "the line and the caret line do not start with the same prefix (one of them has none): the caret is shifted against the text")
+                        bad = True
+                    else:
+                        und = True
+                        notes.append("show: the prefixes of the text line and the caret line are different expressions")
                 between = flat[idx_l + 1:idx_c] if idx_c > idx_l else None
-                if between is None or sum(p[1].count("\n") for p in between if p[0] == "lit") != 1 or any(p[0] == "lit" and not p[1].startswith("\n") for p in between[:1]):
+                if between is None or sum(p[1].count("\n") for p in between if p[0] == "lit") != 1:
                     viol(R + ".show", "caret-order", "the caret is not on the line directly below the text")
                     bad = True
         show_state["wrong" if bad else ("undecided" if und else "ok")] += 1
